@@ -151,6 +151,136 @@ func c11PluginOne(src string, mi int) (kind, detail string) {
 	}
 }
 
+// c11PlugLangOne: the error contract on the plugin language (pluglang.go): the errors come from the plugin's
+// ExpectToken / ExpectSemicolonASI calls and from the library parsing what the plugin asked it to parse.
+func c11PlugLangOne(src string, mi int, cfgs []Cfg) (kind, detail string) {
+	o := parseWith(plugLangPB(Modes[mi]), src)
+	if o.Panic != "" {
+		return "parse-panic", o.Panic
+	}
+	if o.Prog == nil {
+		return "nil-program", "ParseProgram returned a nil program"
+	}
+	if (o.Err != nil) != (len(o.Errs) > 0) {
+		return "error-contract", fmt.Sprintf("err=%v but len(Errors())=%d", o.Err, len(o.Errs))
+	}
+	if k, d := treeNilCheck(o.Prog, false); k != "" {
+		return k, d
+	}
+	if len(o.Errs) > 0 {
+		rs := tokenRanges(src)
+		for i, e := range o.Errs {
+			r := [4]int{e.Range.Start.Line, e.Range.Start.Column, e.Range.End.Line, e.Range.End.Column}
+			if !rs[r] {
+				return "error-range", fmt.Sprintf("error %d %q has range %v which is not the range of any token of the input", i, e.Message, r)
+			}
+		}
+		return "", ""
+	}
+	// error-free: the plugin's nodes have what the plugin asked for, and every configuration compiles
+	var bad string
+	var walk func(v any)
+	walk = func(v any) {
+		if n, ok := v.(*pStmt); ok && n != nil {
+			switch {
+			case n.Kind == "unless" && (isNilNode(n.Cond) || isNilNode(n.Body)):
+				bad = "UNLESS statement without condition or body"
+			case n.Kind == "loop" && n.Block == nil:
+				bad = "LOOP statement without block"
+			case n.Kind == "emit" && isNilNode(n.Cond):
+				bad = "EMIT statement without expression"
+			}
+			if !isNilNode(n.Body) {
+				walk(n.Body)
+			}
+			if n.Block != nil {
+				for _, s := range n.Block.Statements {
+					walk(s)
+				}
+			}
+		}
+	}
+	for _, s := range o.Prog.Statements {
+		walk(s)
+	}
+	if bad != "" {
+		return "missing-child", "no error reported, but the plugin obtained a nil node from the parser: " + bad
+	}
+	for _, c := range cfgs {
+		if co := compileCfg(o.Prog, c); co.Panic != "" {
+			return "compile-panic", c.String() + ": " + co.Panic
+		}
+	}
+	return "", ""
+}
+
+// c11PlugLang: all token sequences <= 3 (4 thorough) over the plugin-language alphabet that contain a plugin
+// keyword, in two joinings, and every prefix and single-token deletion of the well-formed plugin-language
+// programs, in all four modes.
+func c11PlugLang(c *core.Ctx) {
+	cfgs := Cfgs(false, true)
+	if len(cfgs) > 6 {
+		cfgs = cfgs[:6]
+	}
+	run := func(src string, size int) {
+		c.Cur(src)
+		c.Inc("inputs")
+		c.Inc("plugin_language_inputs")
+		for mi := range Modes {
+			c.Inc("parses")
+			if k, d := c11PlugLangOne(src, mi, cfgs); k != "" && c.ShrinkOK("pl"+k) {
+				pl, _ := json.Marshal(c11Payload{src, mi + 200})
+				c.Violate(core.Violation{Kind: k, Config: Modes[mi].String() + ", plugin language", Case: fmt.Sprintf("%q", src), Detail: d, Payload: pl, Size: size})
+			}
+		}
+	}
+	n := 3
+	if c.Thorough() {
+		n = 4
+	}
+	A := plugLangAlphabet
+	for L := 1; L <= n; L++ {
+		gen.EachSeq(len(A), L, func(idx []int) bool {
+			if !c.Next() {
+				return true
+			}
+			if c.Tick() {
+				return false
+			}
+			has := false
+			for _, x := range idx {
+				if x >= 1 && x <= 3 {
+					has = true
+				}
+			}
+			if !has {
+				return true
+			}
+			run(gen.Join(A, idx, " "), L)
+			if L >= 2 {
+				run(gen.Join(A, idx, "\n"), L)
+			}
+			return true
+		})
+	}
+	for i, src := range plugLangPrograms(c.Thorough()) {
+		if !c.Mine(int64(i)) || c.Tick() {
+			continue
+		}
+		run(src, 50)
+		if strings.Contains(src, "//") {
+			continue
+		}
+		toks := strings.Fields(src)
+		for k := 1; k < len(toks); k++ {
+			run(strings.Join(toks[:k], " "), 50)
+		}
+		for k := range toks {
+			run(strings.Join(append(append([]string{}, toks[:k]...), toks[k+1:]...), " "), 50)
+		}
+	}
+}
+
 func c11Plugin(c *core.Ctx) {
 	check := c11PluginOne
 	alpha := append(append([]string{}, gen.T...), "bad", "13")
@@ -196,6 +326,7 @@ func c11Plugin(c *core.Ctx) {
 func c11Run(c *core.Ctx) {
 	processWarmup(c)
 	c11Plugin(c)
+	c11PlugLang(c)
 	n := 4
 	if c.Thorough() {
 		n = 5
@@ -517,6 +648,14 @@ func c11Run(c *core.Ctx) {
 func c11Replay(pl json.RawMessage) (string, []core.Violation) {
 	var p c11Payload
 	json.Unmarshal(pl, &p)
+	if p.Mode >= 200 {
+		k, d := c11PlugLangOne(p.Src, p.Mode-200, Cfgs(false, true))
+		out := fmt.Sprintf("source %q mode %s, plugin language", p.Src, Modes[p.Mode-200])
+		if k != "" {
+			return out, []core.Violation{{Kind: k, Config: Modes[p.Mode-200].String() + ", plugin language", Case: fmt.Sprintf("%q", p.Src), Detail: d}}
+		}
+		return out, nil
+	}
 	if p.Mode >= 100 {
 		k, d := c11PluginOne(p.Src, p.Mode-100)
 		out := fmt.Sprintf("source %q mode %s, error-reporting plugin", p.Src, Modes[p.Mode-100])
@@ -536,7 +675,7 @@ func c11Replay(pl json.RawMessage) (string, []core.Violation) {
 func init() {
 	core.Register(&core.PropSpec{
 		ID: "C11", Level: "exploration",
-		Rule:     "ALL token sequences of length 0..n (n=4 quick, 5 thorough) over the 45-lexeme alphabet (identifiers, literals, every keyword, operator and delimiter), valid or not, space-separated (and line-feed-separated up to n-1; at n=5 in the modes strict and tolerant+smart only), plus all byte strings <=4 over the 26-byte lexer alphabet; each parsed in the 4 mode combinations; oracle: no panic, err<=>Errors(), no nil/typed-nil entry in any statement list (reflective walk), every error range equals the range of a token of a fresh lexer run, and for error-free results all mandatory children present and every compiler configuration + debug.ToString run without panic. non-trivial = input accepted without error in at least one mode (reaches tree + compiler checks) — rejected inputs are counted separately Added: all sequences <= 3 (4 thorough) over a second 20-lexeme alphabet with range-edge numeric literals and a long escape; the scale family intact and truncated at 3 points; programs being typed: every token prefix and every single-token deletion of every program of the statement families and nesting chains, and every prefix of those programs with all / each single semicolon dropped (the inputs tolerant mode exists for), and every single-token substitution by each of 22 class lexemes, in two layouts and all modes; all sequences of length 5..6 (7 thorough) over a 13-lexeme statement-keyword class alphabet in the modes strict and tolerant+smart; error-reporting plugin: all token sequences <= 3 (4 thorough) that contain `bad` or 13, with interceptors that report them through AddErrorAtToken: err iff errors, one plugin error per rejection with the token's range, same tree and same library errors as without the plugin.",
+		Rule:     "ALL token sequences of length 0..n (n=4 quick, 5 thorough) over the 45-lexeme alphabet (identifiers, literals, every keyword, operator and delimiter), valid or not, space-separated (and line-feed-separated up to n-1; at n=5 in the modes strict and tolerant+smart only), plus all byte strings <=4 over the 26-byte lexer alphabet; each parsed in the 4 mode combinations; oracle: no panic, err<=>Errors(), no nil/typed-nil entry in any statement list (reflective walk), every error range equals the range of a token of a fresh lexer run, and for error-free results all mandatory children present and every compiler configuration + debug.ToString run without panic. non-trivial = input accepted without error in at least one mode (reaches tree + compiler checks) — rejected inputs are counted separately Added: all sequences <= 3 (4 thorough) over a second 20-lexeme alphabet with range-edge numeric literals and a long escape; the scale family intact and truncated at 3 points; programs being typed: every token prefix and every single-token deletion of every program of the statement families and nesting chains, and every prefix of those programs with all / each single semicolon dropped (the inputs tolerant mode exists for), and every single-token substitution by each of 22 class lexemes, in two layouts and all modes; all sequences of length 5..6 (7 thorough) over a 13-lexeme statement-keyword class alphabet in the modes strict and tolerant+smart; error-reporting plugin: all token sequences <= 3 (4 thorough) that contain `bad` or 13, with interceptors that report them through AddErrorAtToken: err iff errors, one plugin error per rejection with the token's range, same tree and same library errors as without the plugin. Plugin language (round 12): the error contract on the subset extended by three statement kinds that a plugin parses with the exported parser methods (ExpectToken, NextToken, ParseExpression, ParseExpressionWithPrecedence, ParseStatement, ParseBlockStatement, ExpectSemicolonASI) on registered keyword token types: all token sequences <= 3 (4) containing a plugin keyword, every prefix and single-token deletion of 400 well-formed plugin-language programs, 4 modes.",
 		Assume:   []string{"stack exhaustion on very deep nesting is out of scope (bounded length)"},
 		QuickSec: 300, ThorSec: 2400, Run: c11Run, Replay: c11Replay,
 		Evals: "inputs", Nontriv: "error_free_inputs",
